@@ -42,10 +42,25 @@ PROGRAMS = [
     ),
     ("far-lines", "x = 1\n" + "\n" * 300 + "y = f(\n" + "\n" * 130 + "x)\n"),
     # one-line suites: <=3.8 record extra line-table entries on argument-less instructions
+    # source encodings the import system understands: a PEP 263 cookie and a UTF-8 BOM
+    ("latin-1-cookie", b"# -*- coding: latin-1 -*-\ns = 'caf\xe9 \xc3\xa9'\n"),
+    ("utf-8-bom", b"\xef\xbb\xbfs = 'bom \xc3\xa9'\n"),
     # the two characters backslash+n inside literals: only -c un-escapes them
     ("backslash-n", 'x = "a\\nb"\ny = r"\\n+"\n'),
     ("one-line-suites", "for i in a:\n    if i: break\ntry:\n    f()\nexcept E: pass\nclass A: pass\nclass A: pass\n"),
 ]
+
+# -e expressions that build the same program text from `linesep` in a nested scope
+E_EXPR = {"two-lines": "''.join(l + linesep for l in ['x = 1', 'y = x + 1'])"}
+
+
+def text_of(src):
+    if isinstance(src, bytes):
+        import importlib.util
+
+        return importlib.util.decode_source(src)
+    return src
+
 
 INSTR = re.compile(r"^\s*(\d+)?\s*(>>)?\s*(\d+) ([A-Z_+0-9]+)(?:\s+(-?\d+)(?: \((.*)\))?)?\s*$")
 ADDR = re.compile(r" at 0x[0-9a-fA-F]+")
@@ -101,11 +116,12 @@ class Env(object):
         self.files = {}
         for i, (name, src) in enumerate(PROGRAMS):
             p = os.path.join(self.dir, "prog_%d.py" % i)
+            data = src if isinstance(src, bytes) else src.encode("utf-8", "surrogatepass")
             with open(p, "wb") as f:
-                f.write(src.encode("utf-8", "surrogatepass"))
+                f.write(data)
             m = os.path.join(self.dir, "verifmod_%d.py" % i)
             with open(m, "wb") as f:
-                f.write(src.encode("utf-8", "surrogatepass"))
+                f.write(data)
             self.files[i] = (p, "verifmod_%d" % i, m)
         sys.path.insert(0, self.dir)
 
@@ -141,7 +157,7 @@ class C16(Monitor):
     def argv_for(self, case):
         pi = case["prog"]
         path, mod, modpath = self.env.files[pi]
-        src = PROGRAMS[pi][1]
+        src = text_of(PROGRAMS[pi][1])
         argv = []
         given = []
         # a second program for the extra sources, so that "which one won" is visible
@@ -154,7 +170,7 @@ class C16(Monitor):
             elif name == "-c":
                 argv += ["-c", src.replace("\n", "\\n")]
             elif name == "-e":
-                argv += ["-e", repr(src)]
+                argv += ["-e", E_EXPR.get(PROGRAMS[pi][0], repr(src))]
             elif name == "-m":
                 argv += ["-m", mod]
         for bit, fl in enumerate(FLAGS):
@@ -165,10 +181,13 @@ class C16(Monitor):
     def expected_code(self, case, given):
         pi = case["prog"]
         path, mod, modpath = self.env.files[pi]
-        src = PROGRAMS[pi][1]
+        raw = PROGRAMS[pi][1]
+        src = text_of(raw)
         name = given[0]
         if name == "file":
-            return compile(src, path, "exec", dont_inherit=True), src
+            # a file is a program the way Python reads files: from its bytes
+            with open(path, "rb") as f:
+                return compile(f.read(), path, "exec", dont_inherit=True), src
         if name == "-m":
             with open(modpath, "rb") as f:
                 data = f.read()
